@@ -185,6 +185,8 @@ def run_stream(job):
 
 
 def replay_input(rp):
+    if "lifecycle" in rp:
+        return run_lifecycle_from_callback(rp["lifecycle"])[1]
     return rp.get("message")
 
 
@@ -214,7 +216,7 @@ def run(tier, seed, part=None):
         total += n
         chk.parts.append({"scenario": f"at{gen}/close+open-from-the-message-callback", "segmentations": n})
         if msg:
-            chk.violation(f"at{gen}:lifecycle-from-callback", msg, {"kind": "input", "module": "pvmc.props.c13", "message": msg})
+            chk.violation(f"at{gen}:lifecycle-from-callback", msg, {"kind": "input", "module": "pvmc.props.c13", "lifecycle": gen, "message": msg})
     djobs = [(gen, name, frames, good, 2 if tier == "quick" else 3, sh, nsh)
              for gen in (4, 5) for (name, frames, good) in damaged_streams(gen) for sh in range(nsh)]
     for job, (n, msg) in zip(djobs, explorer.pool().map(run_damaged, djobs, chunksize=1)):
